@@ -4,6 +4,7 @@ package preprocessor
 
 import (
 	"os"
+	"regexp"
 
 	"github.com/internetarchive/Zeno/internal/pkg/config"
 	"github.com/internetarchive/Zeno/internal/pkg/preprocessor/seencheck"
@@ -113,7 +114,7 @@ func c05InScope(u c05U, cfg *config.Config) bool {
 		return false
 	}
 	// "matches the text" = the text of the URL that would be requested
-	if c05Any(u.host, cfg.ExcludeHosts) || c05Any(u.reqText(), cfg.ExcludeString) {
+	if c05Any(u.host, cfg.ExcludeHosts) || c05Any(u.reqText(), cfg.ExcludeString) || c05Any(u.reqText(), c05Regexes) {
 		return false
 	}
 	if len(cfg.IncludeHosts) > 0 || len(cfg.IncludeString) > 0 {
@@ -121,6 +122,8 @@ func c05InScope(u c05U, cfg *config.Config) bool {
 	}
 	return true
 }
+
+var c05Regexes []string // the literal patterns of the exclusion file
 
 func c05Config() *config.Config {
 	cfg := &config.Config{UserAgent: "verif", UseSeencheck: verifrt.Choice("disable-seencheck", 2) == 0}
@@ -137,6 +140,17 @@ func c05Config() *config.Config {
 		cfg.ExcludeString = []string{"skip-me"}
 	case 2:
 		cfg.ExcludeString = []string{"u=http%3A"} // matches only the re-encoded request text
+	}
+	// the exclusion file: literal patterns (the symbolic run models a literal regular expression as substring search)
+	c05Regexes = nil
+	switch verifrt.Choice("exclusion-file", 3) {
+	case 1:
+		c05Regexes = []string{"/rel/"}
+	case 2:
+		c05Regexes = []string{"zzz-nomatch", "lib.js"} // ('.' also matches itself: same result on this table either way)
+	}
+	for _, p := range c05Regexes {
+		cfg.ExclusionRegexes = append(cfg.ExclusionRegexes, regexp.MustCompile(p))
 	}
 	if verifrt.Choice("include-host", 2) == 1 {
 		cfg.IncludeHosts = []string{"inc.example"}
